@@ -121,7 +121,7 @@ for _n, _c in [('time_ts_plus_dur', 't + d is the chrono result or an error when
                     claim=_c, vars=None)
 
 ALL_UNITS = ['value_arith', 'value_cmp', 'value_coll', 'macros', 'preresolved', 'interp', 'interp_vm_g0', 'interp_vm_g1', 'interp_vm_g2', 'interp_vm_g3',
-             'interp_vm_g4', 'interp_vm_g5', 'interp_vm_g6', 'interp_vm_g7', 'builtins', 'wiring', 'parser']
+             'interp_vm_g4', 'interp_vm_g5', 'interp_vm_g6', 'interp_vm_g7', 'builtins', 'wiring', 'parser', 'json']
 
 PROPS = {
     'C02': dict(
@@ -186,8 +186,8 @@ PROPS = {
         assumptions=[],
     ),
     'C12': dict(
-        units=['interp', 'macros', 'interp_vm_g0', 'interp_vm_g7'],
-        not_covered=['that 32 frames fit the default stack (a machine resource)', 'JSON -> CelValue equality (serde_json is opaque)',
+        units=['interp', 'macros', 'interp_vm_g0', 'interp_vm_g7', 'json'],
+        not_covered=['that 32 frames fit the default stack (a machine resource)', 'JSON arrays / objects (the recursive conversion uses iterator adapters: those two arms are dropped; JSON scalars ARE under contract)',
                      'rebinding / re-adding replaces: HashMap::insert semantics of BindContext / CelContext (std)'],
         assumptions=['ScopedCounter RAII (the increment is undone on scope exit)'],
     ),
